@@ -422,7 +422,7 @@ func runCheck(opt checkOpts) int {
 			"infrastructure_trouble": agg.infra,
 		},
 	}
-	evPath := filepath.Join(verifRoot(), "evidence", opt.ID+".json")
+	evPath := filepath.Join(outRoot(), "evidence", opt.ID+".json")
 	os.MkdirAll(filepath.Dir(evPath), 0o755)
 	raw, _ := json.MarshalIndent(ev, "", " ")
 	if err := os.WriteFile(evPath, raw, 0o644); err != nil {
@@ -508,7 +508,7 @@ func sigFile(sig string) string {
 }
 
 func writeReplay(opt checkOpts, sig string, f finding, plan json.RawMessage, stable string) string {
-	dir := filepath.Join(verifRoot(), "replays", opt.ID)
+	dir := filepath.Join(outRoot(), "replays", opt.ID)
 	os.MkdirAll(dir, 0o755)
 	path := filepath.Join(dir, sigFile(sig)+".json")
 	doc := map[string]any{
